@@ -1402,6 +1402,7 @@ func (r *Rsvcb) UnmarshalText(text []byte) error {
 	r.dom, r.iswildcard = getdom(f[0])
 	r.tgtname, _ = getdom(f[1])
 
+	r.ttl = LongTTL // like every other record type except SOA and NS
 	getuint32(f[2], &r.ttl)
 
 	var err error
